@@ -21,5 +21,6 @@ CONSTANTS
   DevAvg = FALSE
   DevArr = FALSE
   DevNul = FALSE
+  DevEmpty = FALSE
 INVARIANTS RoundTrip EncoderShape Refines DevExplained PaethOK RowOK EmitInv
 CHECK_DEADLOCK FALSE
